@@ -1,6 +1,8 @@
 (* Lemmas about Model/VisualTracker.v (C12). *)
 From Coq Require Import List NArith ZArith QArith Bool Arith Lia Sorted Permutation.
 From Similari Require Import Model.VisualAttrs Model.VisualTracker Proofs.VisualAttrsProofs.
+From Similari Require Base.Num Proofs.VisualGateProofs.
+From SimilariGen Require Scalar ScalarGate ScalarVisual.
 Import ListNotations.
 Local Open Scope nat_scope.
 
@@ -140,6 +142,38 @@ Proof.
       * intros E'. destruct (R4 E') as (Q1 & Q2 & Q3). repeat split; try assumption. lia.
 Qed.
 
+
+(* ---- the translated gates, in terms of the thresholds ------------------------------------------------------------ *)
+Lemma is_ok_iff (t d : Q) :
+  (is_ok (Euclid t) d = true <-> (d <= t)%Q) /\ (is_ok (Cosine t) d = true <-> (t <= d)%Q).
+Proof. exact (VisualGateProofs.is_ok_spec t d). Qed.
+
+Lemma distance_to_weight_eq (t d : Q) :
+  (distance_to_weight (Euclid t) d == d)%Q /\ (distance_to_weight (Cosine t) d == 1 - d)%Q.
+Proof. exact (VisualGateProofs.distance_to_weight_spec t d). Qed.
+
+(* the translated positional_metric on (value, confidence 1, minimal confidence 0): only the IoU threshold filter is left *)
+Lemma unit_gate thr w0 :
+  ScalarVisual.visual_positional_metric Num.Qops (Some unit_box) (Some unit_box) 0%Q
+    (ScalarGate.PositionalMetricType_IoU Num.Qops thr) false 0%Q (Some w0)
+  = if Qle_bool thr (Qred (w0 * 1)) then Some (Qred (w0 * 1)) else None.
+Proof. reflexivity. Qed.
+
+Lemma pos_gate_spec p w z : pos_gate o p = Some (w, z) <->
+  p = Some (w, z) /\ (to_pos o = Maha \/ exists thr, to_pos o = IoU thr /\ (thr <= w)%Q).
+Proof.
+  unfold pos_gate. destruct (to_pos o) as [|thr] eqn:K.
+  - split; [intros ->; split; [reflexivity | left; reflexivity] | intros [-> _]; reflexivity].
+  - destruct p as [[w0 z0]|]; [|split; [discriminate | intros [H _]; discriminate]].
+    rewrite unit_gate. destruct (Qle_bool thr (Qred (w0 * 1))) eqn:L.
+    + apply Qle_bool_iff in L. rewrite Qred_correct, Qmult_1_r in L. split.
+      * intros H. injection H as <- <-. split; [reflexivity|]. right. exists thr. split; [reflexivity | exact L].
+      * intros [H _]. exact H.
+    + split; [discriminate|]. intros [H [Hm|(thr' & Ht & Hle)]]; [discriminate|].
+      injection H as <- <-. injection Ht as <-.
+      assert (T : Qle_bool thr (Qred (w0 * 1)) = true) by (apply Qle_bool_iff; rewrite Qred_correct, Qmult_1_r; exact Hle).
+      congruence.
+Qed.
 
 (* ================================================================================================ *)
 (* Layer B: best-fit voting                                                                         *)
@@ -331,9 +365,10 @@ Lemma visual_metric_some cl d t gx e : visual_metric o cl d t gx = Some e ->
 Proof.
   unfold visual_metric. destruct (can_use o d); [|discriminate].
   destruct (d_feat d); [|discriminate]. destruct (g_feat gx); cbn [andb]; [|discriminate].
-  destruct (Nat.leb_spec (to_min_len o) (collected t)) as [Hlen|Hlen]; [|discriminate].
-  destruct (is_ok (to_vis o) (c_fd cl (d_uid d) (g_uid gx))); [|discriminate].
-  intros Hw. injection Hw as <-. repeat split; auto.
+  intros Hw. apply VisualGateProofs.visual_metric_some_iff in Hw. destruct Hw as (Hlen & Hok & He).
+  assert (K : VisualGateProofs.visual_kind_distance (to_vis o) (c_fd cl (d_uid d) (g_uid gx)) (c_fd cl (d_uid d) (g_uid gx))
+              = c_fd cl (d_uid d) (g_uid gx)) by (destruct (to_vis o); reflexivity).
+  rewrite K in Hok, He. repeat split; auto. lia.
 Qed.
 
 Definition vm_ok cl d t gx : bool := match visual_metric o cl d t gx with Some _ => true | None => false end.
